@@ -162,6 +162,7 @@ def start_table(R, ctx):
         names = [e[0].split('::')[-1] for e in r.effects]
         key = (nm, cur if nm == 'TimestampsCustomFormat' else None)
         per.setdefault(key, []).append((app, r, names))
+    f28 = set()
     need = [('Numbers', None), ('NumbersDirect', None), ('Timestamps', None), ('TimestampsDirect', None), ('TimestampsCustomFormat', 'Some'), ('TimestampsCustomFormat', 'None')]
     for key in need:
         lst = per.get(key, [])
@@ -212,8 +213,23 @@ def start_table(R, ctx):
                 flag = eff_arg(f, lt[0], 'rotate', r'^bool$')
                 if app is None or flag != str(not app):
                     bad = f"latest_timestamp_file rotate flag is {flag} for append={app}; documented: continue the latest file iff appending"
+                # F28: when appending, the file that is continued is named from the PARSED timestamp of the newest file only: a
+                # `.restart-NNNN` part of that file's name is lost, so the base file of that second is re-opened although newer
+                # restart siblings exist
+                op = [e for e in r.effects if e[0].endswith('open_log_file')]
+                if app is True and op:
+                    infix = r.long(op[0][1][1])
+                    if 'latest_timestamp_file#' in infix and 'infix_from_timestamp' in infix and 'collision_free' not in infix and 'restart' not in infix:
+                        f28.add(nm)
         R.check('R06.3', f"{b.path}|start|{key[0]}|{key[1]}", not bad, f"{len(lst)} rows agree", f"start with naming {key[0]}" + (f"(current_infix {key[1]})" if key[1] else '') + f": {bad}",
                 where=b.loc(), sample={'naming': key, 'rows': len(lst)})
+    if f28:
+        R.bad('R06.3', 'direct-timestamp-append-ignores-restart-siblings',
+              f"start with append and direct timestamp naming ({sorted(f28)}): the file continued is named infix_from_timestamp(latest_timestamp_file(..)) - the parsed timestamp of the newest "
+              "file only, so the base file `<ts>` of that second is re-opened although newer `<ts>.restart-NNNN` siblings exist: the new records are appended to a file that sorts "
+              "before files holding later records (or, after cleanup removed the base file, into a re-created file that the start-up cleanup then deletes)", where=b.loc())
+    else:
+        R.ok('R06.3', 'direct-timestamp-append-ignores-restart-siblings', 'the continued file is not re-derived from the parsed timestamp alone')
     # R06.5 rotation-time flags are the constant true (from the rotation table)
     rb = ctx.body(r'::State::mount_next_linewriter_if_necessary$')
     n = 0
